@@ -256,6 +256,29 @@ pub struct Scenario {
     pub plant: Vec<(Ent, String, Option<Vec<u8>>)>,
     /// adaptive random loss that stays inside the C02 hypothesis (see `Dropper`)
     pub dropper: Option<Dropper>,
+    /// first transaction sequence number of every daemon (None = 2-byte 1)
+    pub seq_start: Option<Vec<VariableID>>,
+}
+
+/// A configuration that differs from `c` in every observable respect. The daemons are given the real
+/// configuration per remote entity and this decoy as their *default*, so that any code path that picks
+/// the default instead of the per-entity configuration shows at the boundary.
+pub fn decoy_config(c: &EntityConfig) -> EntityConfig {
+    let mut d = c.clone();
+    d.nak_procedure = match c.nak_procedure {
+        NakProcedure::Deferred(x) => NakProcedure::Immediate(x),
+        NakProcedure::Immediate(x) => NakProcedure::Deferred(x),
+    };
+    d.crc_flag = if c.crc_flag == CRCFlag::Present { CRCFlag::NotPresent } else { CRCFlag::Present };
+    d.closure_requested = !c.closure_requested;
+    d.checksum_type = if c.checksum_type == ChecksumType::Modular { ChecksumType::Null } else { ChecksumType::Modular };
+    d.file_size_segment = c.file_size_segment + 8;
+    d.inactivity_timeout = c.inactivity_timeout + 1;
+    d.ack_timeout = c.ack_timeout + 1;
+    d.nak_timeout = c.nak_timeout + 1;
+    d.default_transaction_max_count = c.default_transaction_max_count + 1;
+    d.fault_handler_override = HashMap::new();
+    d
 }
 
 /// Adaptive loss: every PDU is dropped with probability p, subject to budgets that keep every
@@ -1081,13 +1104,21 @@ pub fn run(mut sc: Scenario, scratch: &str) -> RunLog {
             let peers: Vec<EntityID> = (0..n).filter(|j| *j != i).map(|j| VariableID::from(sc.entities[j].id)).collect();
             let mut tmap: HashMap<Vec<EntityID>, Box<dyn PDUTransport + Send>> = HashMap::new();
             tmap.insert(peers, Box::new(SimTransport { me: i, shared: shared.clone(), inbox: irx }));
+            // the real configuration for every known remote entity, a decoy as the default
+            let mut per_entity: HashMap<VariableID, EntityConfig> = HashMap::new();
+            for j in 0..n {
+                if j != i {
+                    per_entity.insert(VariableID::from(sc.entities[j].id), sc.entities[i].config.clone());
+                }
+            }
+            let seq0 = sc.seq_start.as_ref().and_then(|v| v.get(i).cloned()).unwrap_or(VariableID::from(1u16));
             let mut daemon = Daemon::new(
                 VariableID::from(sc.entities[i].id),
-                VariableID::from(1u16),
+                seq0,
                 tmap,
                 Arc::new(NativeFileStore::new(Utf8PathBuf::from(roots2[i].clone()))),
-                HashMap::new(),
-                sc.entities[i].config.clone(),
+                per_entity,
+                decoy_config(&sc.entities[i].config),
                 prx,
                 indtx,
             );
